@@ -396,10 +396,11 @@ def run(ctx, chk):
                 doc = ": n: bytes 16*DS..=16*DS+n"
             # the last byte printed is the (inclusive) end of the range: it must lie inside the 1 MB space on the
             # path that reaches the loop (a range that leaves the space has to be diverted before)
-            last = e_ if ranges else None
+            last = e_
+            off = 0 if ranges else 1  # half-open: the last byte printed is end-1
             if last is not None and last.kind == "int":
-                if last.hi <= (1 << 20) - 1:
-                    chk.ok("C17.R3", f"{label}:end-in-space", f"range end <= {last.hi:#x} on the printing path")
+                if last.hi - off <= (1 << 20) - 1:
+                    chk.ok("C17.R3", f"{label}:end-in-space", f"range end <= {last.hi - off:#x} on the printing path")
                 elif last.exact:
                     chk.violation("C17.R3", label, "range-end-can-leave-1MB",
                                   f"{label}: the printing loop is reached with an inclusive end of up to {last.hi:#x} (attainable): the guard before the loop lets a range through "
